@@ -20,6 +20,19 @@ def run(tier: str) -> int:
     recs = pmap(drv.exec_ptn, scns)
     rejects, consumed, wall = validate_traces("PatternTrace", "PatternTrace", recs, tag=f"c20-{tier}")
     chk.add_traces(recs, rejects)
+    # EXTENSION beyond C20 (the play-field renderer that visualises these patterns): FieldMC is model-checked (rectangles of
+    # different columns are disjoint; with a lead of two hit heights every hit lies inside the canvas; the sanity configuration
+    # without the lead must be violated), every chart x configuration of the model is rendered with PlayField + PFDrawNotes
+    # and FieldTrace judges the pixels; disagreements are observations
+    from harness.drivers import fieldx
+    fm = run_tlc("FieldMC", f"FieldMC_{tier}", workers=4, timeout=3000)
+    chk.add_model(f"FieldMC_{tier}", fm, "EXTENSION: PlayField geometry (ColumnsDisjoint, HitsInside)")
+    if run_tlc("FieldMC", "FieldMC_sanity", workers=1, timeout=600).ok:
+        chk.model_violations.append("vacuity: FieldMC_sanity (no lead) was expected to violate HitsInside")
+    fs = [p for p in fm.prints if isinstance(p, dict) and p.get("kind") == "field"]
+    frecs = pmap(fieldx.exec_field, fs[:: max(1, len(fs) // (800 if tier == "quick" else 8000))])
+    frej, _, _ = validate_traces("FieldTrace", "FieldTrace", frecs, tag=f"c20x-{tier}")
+    chk.add_traces(frecs, frej)
     chk.nontrivial = len({(x["op"], str(x.get("notes", x.get("groups"))), str(x.get("chord")), str(x.get("combo")), str(x.get("type")),
                            x.get("v"), x.get("h"), x.get("jack"), x.get("n")) for x in recs})
     chk.rule = ("TLC enumerates every note set of <= MaxNotes notes (times 0..3, 3 columns, hit/hold/tail) x v in 0..2 x h in "
